@@ -348,7 +348,7 @@ Example toy_marshal_perm_satisfiable :
     mar (mkManifest k c l sj a ann) = mar (mkManifest k c l sj a ann').
 Proof. reflexivity. Qed.
 
-Definition ex_layer : desc := mkDesc (b "application/octet-stream") (b "sha256:aa") 5 [] [] [].
+Definition ex_layer : desc := mkDesc (b "application/octet-stream") (b "sha256:aa") 5 [] [] no_extra.
 
 (* v1.1, no config, no layers, target with Exists keyed by digest: Exists, push "{}", push manifest *)
 Example ex_ok :
@@ -409,9 +409,9 @@ Proof. exact ex_file_store. Qed.
 
 Example ex_registry_namespaces :
   stored KNamespace [mkEntry MediaTypeEmptyJSON empty_json_digest 2 empty_json []]
-         (mkDesc MediaTypeImageManifest empty_json_digest 2 [] [] []) = false /\
+         (mkDesc MediaTypeImageManifest empty_json_digest 2 [] [] no_extra) = false /\
   stored KDigest [mkEntry MediaTypeEmptyJSON empty_json_digest 2 empty_json []]
-         (mkDesc MediaTypeImageManifest empty_json_digest 2 [] [] []) = true.
+         (mkDesc MediaTypeImageManifest empty_json_digest 2 [] [] no_extra) = true.
 Proof. exact ex_registry_namespace. Qed.
 
 Example ex_fault :
